@@ -27,7 +27,7 @@ Practical facts:
 - mpi4py is installed WITHOUT an MPI library; make enspara take its no-MPI path by putting `import sys; sys.modules['mpi4py'] = None` BEFORE importing enspara in your demo programs, and put your worktree first on sys.path: `sys.path.insert(0, '{wt}')`. Check `enspara.__file__` starts with {wt} (site-packages contains a DIFFERENT enspara that must not be tested).
 - The Cython extensions (enspara/geometry/libdist.pyx, enspara/info_theory/libinfo.pyx, enspara/msm/libmsm.pyx) are NOT built in a fresh worktree. Build them once with `cd {wt} && /venv/bin/python setup.py build_ext --inplace` (about 1 minute; rebuild after editing a .pyx). enspara.msm, enspara.cluster and enspara.info_theory need them.
 - The pinned test-suite: `cd {wt} && /venv/bin/python -m pytest -ra -q -p no:cacheprovider --timeout=900 --continue-on-collection-errors 2>&1 | tail -5` must report exactly "1 failed, 47 passed" plus 20 collection errors both before and after each change when run in a tree WITHOUT built extensions (the 20 errors and the one failure, test_rotamer_assignment, are pre-existing). IMPORTANT: built .so files change which tests are collected, so run the pinned suite in a state without .so files: e.g. do your demo work with the extensions built, and for the suite copy the tree without *.so (`rsync -a --exclude '*.so' --exclude build {wt}/ {wt}-nosuite/`), run the suite there, and delete that copy afterwards.
-- Deliverables, in {wt}/MUTANTS/: for k = 1,2,3: patch_<k>.diff (unified diff against the worktree's HEAD, produced with `git diff` with ONLY that change applied), demo_<k>.py, and notes_<k>.md (what the change is, which sentence of the property it breaks, what is needed for it to manifest, why the existing tests do not notice, and the exact commands you ran with their outcomes). Leave the worktree's tracked files UNCHANGED at the end (git checkout -- .), keeping only the MUTANTS directory (and built .so files).
+- Deliverables, in {wt}/MUTANTS/: for k = 1,2,3: patch_<k>.diff (unified diff against the worktree's HEAD, produced with `git diff` with ONLY that change applied), demo_<k>.py, and notes_<k>.md (what the change is, which sentence of the property it breaks, what is needed for it to manifest, why the existing tests do not notice, and the exact commands you ran with their outcomes). NEVER use `git stash` (the stash is shared by all worktrees of the repository and other agents work in parallel: use `git diff > file; git checkout -- .; git apply file` instead). Leave the worktree's tracked files UNCHANGED at the end (git checkout -- .), keeping only the MUTANTS directory (and built .so files).
 - Verify everything yourself before reporting: apply each patch alone to a clean tree, (re)build if needed, run the demo (must fail), run the pinned suite (must be 47 passed / 1 failed / 20 errors), revert, run the demo again (must pass).
 
 Final message: for each of the three changes, a short description, what it needs to manifest, and confirmation of the verification steps.""")
